@@ -27,6 +27,9 @@ TRUSTED = [
 ASSUMPTIONS = [
     'histories start from an object returned by write_ndarray_to_yanny for a document of the domain doc_ok (coq/Yanny/Render.v); '
     'raw mode: the written file re-opened with yanny(path, raw=True)',
+    'text-seeded histories (hand-written text with char x[] / char x[n][] columns, appends of values longer than all present) '
+    'are outside the domain of the theorems (doc_ok excludes undeclared lengths); they are compared with the model after every '
+    'op (Model.CText) and decided by the direct checks object == fresh re-read == expected content',
     'appended rows fit the table (same domain as C01 cells), appended keys are fresh identifiers different from every table name, '
     'appended values satisfy hdr_ok; write() is given an explicit list of comments; row data come as lists holding numpy '
     'scalars of the column type for floats (python ints / str otherwise) or as record arrays',
@@ -602,10 +605,10 @@ def correspond(ctx, proof_ok=True):
                       {'kind': 'broken-correspondence', 'item': 'oracle: str(np.floatN(float(t))) == t', 'examples': bo[:10]}, False)
     rng = ctx.rng
     hists = []
-    for i in range(ctx.n(180, 3000)):
+    for i in range(ctx.n(180, 2000)):
         doc, ops = gen_history(rng, rng.randint(1, 12))
         hists.append((doc, rng.random() < 0.4, ops))
-    for i in range(ctx.n(70, 800)):
+    for i in range(ctx.n(70, 600)):
         doc, ops = gen_text_history(rng, rng.randint(1, 8))
         hists.append((doc, rng.random() < 0.3, ops))
     if ctx.thorough:
